@@ -20,11 +20,13 @@ RULE = ("programs: all queries from atom families over selected variables of typ
         "with a literal in six operators, in_/contains with literal lists and strings, one- and two-step relationship "
         "paths, enum literal, attribute-equality join and scalar comparisons between two variables) combined with "
         "and_/or_ up to 3 leaves, quantified with an and the, plus one instance of every construct the translator has no "
-        "case for (must be rejected); x 12 database contents (wirings of 2 holders, 2 items, 1 carrier, references on "
-        "queried paths never None). disagreements_checked = (query, database) pairs compared three ways")
+        "case for (must be rejected); x 20 database contents (wirings of 2 holders, 2-3 items, 1-2 carriers incl. contents "
+        "where one entity has several join partners; references on queried paths never None); entities AND row "
+        "multiplicities (one row per binding) are compared, and the(...) must fail alike. disagreements_checked = (query, "
+        "database) pairs compared three ways")
 ASSUMPTIONS = ["SQLite; when the in-memory engine and the plain-Python reference disagree the case is left to C01",
                "references on paths used by a query are never None (in-memory evaluation is undefined otherwise)"]
-BOUNDS = {"quick": {"leaves": 3, "core_atoms_for_3_leaves": 7, "databases": 12}, "thorough": {"leaves": 3, "core_atoms_for_3_leaves": 11, "databases": 32}}
+BOUNDS = {"quick": {"leaves": 3, "core_atoms_for_3_leaves": 7, "databases": 20}, "thorough": {"leaves": 3, "core_atoms_for_3_leaves": 11, "databases": 64}}
 CHUNK = 2
 RECYCLE_CHUNKS = 6
 BUDGET_S = {"quick": 1200, "thorough": 9000}
@@ -104,6 +106,16 @@ def databases(tier):
         out = out[::5][:12]
     else:
         out = out[::2]
+    # contents in which one entity has SEVERAL join partners: a second carrier (and a third item with the same number
+    # as the second), so that a query over two variables binds the same selected entity more than once
+    more = []
+    for one0, back0, back1, owner0, owner1 in itertools.product(("i0", "i1"), ("h0", "h1"), ("h0", "h1"), ("h0", "h1"), ("h0", "h1")):
+        more.append((ormgraphs.item("i0", False, 0), ormgraphs.item("i1", True, 1), ormgraphs.item("i2", False, 1),
+                     ormgraphs.holder("h0", False, one0, ("i0",), back0, ()),
+                     ormgraphs.holder("h1", False, "i1", (), back1, ("h0",)),
+                     ("c0", "OCarrier", (("owner", ("ref", owner0)), ("item_type", ("type", "OItem")))),
+                     ("c1", "OCarrier", (("owner", ("ref", owner1)), ("item_type", ("type", "OSubItem"))))))
+    out += more[::4] if tier == "quick" else more
     return out
 
 
@@ -300,12 +312,15 @@ def run_case(case):
                 yt = second_type(q)
                 ys = by_type.get(yt, []) if yt else [None]
                 exp = [o for o in by_type.get(sel, []) if any(ref_cond(q, o, y) for y in ys)]
+                # one row per binding of the query's variables: a selected entity with k partners is selected k times
+                exp_multi = sorted(name_of[id(o)] for o in by_type.get(sel, []) for y in ys if ref_cond(q, o, y))
                 # in memory
                 try:
                     mq = build_query(sel, q, quant, by_type, True)
                     if quant == "an":
                         mem = list(mq.evaluate())
                         mem_out = ("rows", sorted({name_of[id(o)] for o in mem}))
+                        mem_multi = sorted(name_of[id(o)] for o in mem)
                     else:
                         try:
                             mem_out = ("one", name_of[id(mq.evaluate())])
@@ -320,6 +335,19 @@ def run_case(case):
                 if quant == "an" and mem_out[1] != exp_names:
                     feats.add("memory-differs-from-reference(left to C01)")
                     continue
+                if quant == "the":
+                    exp_the = ("none",) if not exp_multi else ("one", exp_multi[0]) if len(exp_multi) == 1 else ("multiple",)
+                    if mem_out != exp_the:
+                        feats.add("memory-differs-from-reference(left to C01)")
+                        continue
+                    if len(exp_names) == 1 and len(exp_multi) > 1:
+                        feats.add("the:one-entity-several-bindings")
+                # row multiplicities are compared when the engine's own multiplicities are the reference's
+                multi = quant == "an" and mem_multi == exp_multi
+                if quant == "an" and not multi:
+                    feats.add("memory-multiplicity-differs-from-reference(compared as sets)")
+                if multi and len(exp_multi) > len(exp_names):
+                    feats.add("an:several-bindings-per-entity")
                 # SQL
                 res.evaluations += 1
                 try:
@@ -333,10 +361,12 @@ def run_case(case):
                     continue
                 try:
                     if quant == "an":
-                        rows = tq.evaluate()
+                        rows = list(tq.evaluate())
                         got = sorted({n for n, o in objs.items() if pk[id(o)][1] in {r.database_id for r in rows}
                                       and isinstance(o, getattr(M, sel))})
                         sql_out = ("rows", got)
+                        sql_multi = sorted([n for n, o in objs.items() if pk[id(o)][1] == r.database_id
+                                            and isinstance(o, getattr(M, sel))][0] for r in rows)
                     else:
                         try:
                             r = tq.evaluate()
@@ -350,7 +380,12 @@ def run_case(case):
                                                 case=(tier, di, sel, q, quant)))
                     continue
                 feats.add("compared:" + quant)
-                if sql_out != mem_out:
+                if sql_out == mem_out and multi and sql_multi != mem_multi:
+                    res.failures.append(Failure("different-row-multiplicity",
+                                                f"{label}: one row per binding in memory {mem_multi}, SQL returns {sql_multi}; "
+                                                f"statement: {' '.join(str(tq.sql_query).split())[:300]}",
+                                                case=(tier, di, sel, q, quant)))
+                elif sql_out != mem_out:
                     res.failures.append(Failure("different-entities", f"{label}: in memory {mem_out}, SQL {sql_out}; "
                                                                       f"statement: {' '.join(str(tq.sql_query).split())[:300]}",
                                                 case=(tier, di, sel, q, quant)))
@@ -408,7 +443,7 @@ def finish(run):
     run.extra["programs"] = len(qs)
     run.extra["disagreements_checked"] = run.evaluations
     if run.exhaustive and not run.failures:
-        for k in ("compared:an", "compared:the", "rejected:not"):
+        for k in ("compared:an", "compared:the", "rejected:not", "the:one-entity-several-bindings", "an:several-bindings-per-entity"):
             if not run.features.get(k):
                 raise HarnessError("vacuous: " + k)
 
